@@ -70,9 +70,10 @@ def fault_slice(u, tier):
     and  [self-failing call] [post call]."""
     q = tier == "quick"
     ents = ("export", "export_all") if q else ("export", "export_all", "export_all_to")
-    pre = [u.call("export_all", "Leaf", "default"), u.call("export", "Wrap<Alpha>", "default"), u.call("export_all", "Esc", "default")]
+    pre = [u.call("export_all", "Leaf", "default"), u.call("export", "Wrap<Alpha>", "default"), u.call("export_all", "Esc", "default"),
+           u.call("export_all", "Alpha", "default")]
     if not q:
-        pre += [u.call("export_all", "Alpha", "default"), u.call("export", "Other", "default")]
+        pre += [u.call("export", "Other", "default")]
     post = [u.call("export_all", "Alpha", "default"), u.call("export_all", "Root", "default"), u.call("export", "Al1", "default"),
             u.call("export_all", "Wrap<Leaf>", "default")]
     selffail = [u.call("export", "i32", "default"), u.call("export_all", "Vec<Alpha>", "default"),
@@ -107,6 +108,15 @@ def fault_slice(u, tier):
                 calls += [u.fs_step(kind, rel), dict(b), u.fs_step("rm", rel), dict(b)]
                 follow += [[i_put + 1], [i_put + 2], [i_put + 3], list(post_idx)]
                 put_idx.append(i_put)
+    # a shared file that already holds a declaration is replaced by a directory while another type is exported
+    # into it, put back, and the export repeated (the guard of the model: only an existing file is moved aside)
+    for t in (["Al1", "Al2", "Beta"] if q else ["Al1", "Al2", "Beta", "AlphaBeta", "alpha2", "Al<i32>"]):
+        for e in ents:
+            b = u.call(e, t, "default")
+            i_put = len(calls) + 1
+            calls += [u.fs_step("swapout", "bindings/shared.ts"), dict(b), u.fs_step("swapin", "bindings/shared.ts"), dict(b)]
+            follow += [[i_put + 1], [i_put + 2], [i_put + 3], list(post_idx)]
+            put_idx.append(i_put)
     for i in pre_idx:
         follow[i - 1] = list(put_idx) + list(self_idx)
     follow0 = pre_idx + put_idx + self_idx
@@ -244,7 +254,7 @@ def describe_steps(steps):
     return "; ".join(out)
 
 
-def prop_of(tag, confl):
+def prop_of(tag, confl, slice_name=None):
     """the properties a verdict tag belongs to: a declaration lost or torn inside a shared file is both
     a lossless-merge (C05) and a never-lost (C06) matter"""
     if TAG_PROP[tag] is None:
@@ -254,6 +264,8 @@ def prop_of(tag, confl):
         ps.add("C05")
     if tag == "C05w_malformed":
         ps.add("C06")
+    if slice_name == "faults" and tag in ("C11r_missing_file", "C11r_missing_decl", "C06l_lost"):
+        ps.add("C17")      # "a failed export is not recorded as done": the repeated export is complete
     return ps
 
 
@@ -275,7 +287,7 @@ def run_property(prop, slices, tier, level="model_checking", extra_assumptions=(
             samples.append({"slice": name, "history": describe_steps(r["steps"]), "returns": r["rets"], "verdicts": r["bad"]})
         for r in res:
             for b in r["bad"]:
-                ps = prop_of(b["tag"], r["confl"])
+                ps = prop_of(b["tag"], r["confl"], name)
                 if prop not in ps:
                     for p in ps:
                         others[p] = others.get(p, 0) + 1
